@@ -244,3 +244,43 @@ func H_range() {
 	verifAssert(formatRangeUnified(start, start+n) == verifRange(start, n), "formatRangeUnified follows the POSIX rule")
 	verifReach("range")
 }
+
+// DiffMatch entry point over a table of (text, expectation with placeholders,
+// does it match). regexp, strings.Replacer and the clock are executed natively
+// on these concrete strings (trusted); the real DiffMatch code - placeholder
+// expansion, quick check, per-line matcher - is what is interpreted.
+var verifMatchCases = [...]struct {
+	have, want string
+	match      bool
+}{
+	{"Hello world", "Hello world", true},
+	{"Hello world", "He%(ANY)", true},
+	{"Hello world\nextra", "He%(ANY)", false},
+	{"Hello", "He%(ANY 3)", true},
+	{"Hello", "He%(ANY 2)", false},
+	{"Hello", "He%(ANY 4,)", false},
+	{"id 123", "id %(NUMBER)", true},
+	{"id abc", "id %(NUMBER)", false},
+	{"id 123", "id %(NUMBER 3)", true},
+	{"id abc", "id %(NUMBER 3)", false},
+	{"id 1234", "id %(NUMBER 3)", false},
+	{"u 0f8fad5b-d9cb-469f-a165-70867728950e", "u %(UUID)", true},
+	{"u 0F8FAD5B-D9CB-469F-A165-70867728950E", "u %(UUID)", true},
+	{"u 0f8fad5b-d9cb-469f-a165-7086772895", "u %(UUID)", false},
+	{"a\nb 7\nc", "a\nb %(NUMBER)\nc", true},
+	{"a\nb x\nc", "a\nb %(NUMBER)\nc", false},
+	{"x (1)", "x (1)", true},
+	{"x.y", "x%(ANY 1)y", true},
+	{"xy", "x.y", false},
+}
+
+func H_diffmatch() {
+	c := verifMatchCases[verifChoose("case", len(verifMatchCases))]
+	d := DiffMatch(c.have, c.want)
+	verifAssert((d == "") == c.match, "DiffMatch returns the empty string exactly when the text matches the expectation after its placeholders are expanded")
+	if c.match {
+		verifReach("diffmatch-match")
+	} else {
+		verifReach("diffmatch-differs")
+	}
+}
